@@ -1,6 +1,114 @@
-//! Property C07 — correspondence / expectation run (see DESIGN.md §5, C07).
+//! Property C07 — hiding: blinding comes from the caller's RNG with h+2 coefficients.
+use crate::common::*;
+use crate::generic;
+use crate::kzg::*;
+use crate::wire::{self, Req};
 use crate::Ctx;
+use ark_bls12_381::Fr;
+use ark_ff::{UniformRand, Zero};
+use ark_poly::Polynomial;
 
 pub fn run(ctx: &mut Ctx) {
-    let _ = ctx;
+    kzg10(ctx);
+    generic::c07_all(ctx);
+    ctx.flush_model("C07");
+}
+
+fn kzg10(ctx: &mut Ctx) {
+    let n = ctx.n(60, 800);
+    for i in 0..n {
+        let id = format!("C07/kzg10/{}", i);
+        if !ctx.selected(&id) {
+            continue;
+        }
+        let mut rng = rng_for(ctx.seed, "C07/kzg10", i as u64);
+        let max_degree = range(&mut rng, 2, 24);
+        let trap = Trap::random(&mut rng, max_degree);
+        let pp = trap.params(false);
+        let supported = range(&mut rng, 2, max_degree);
+        let (powers, _vk) = trim(&pp, supported);
+        let (p, kind) = gen_poly(&mut rng, supported);
+        let h = range(&mut rng, 0, supported - 1);
+        // replay: the draws the committer will take from this RNG state
+        let mut replay = rng.clone();
+        let draws: Vec<Fr> = (0..h + 6).map(|_| Fr::rand(&mut replay)).collect();
+        let mut crng = CountRng::new(rng.clone());
+        let res = guarded(|| Kzg::commit(&powers, &p, Some(h), Some(&mut crng)));
+        let (comm, rand) = match res {
+            Ok(Ok(x)) => x,
+            other => {
+                ctx.rep.expect_fail(&id, "kzg10/hiding-commit-refused",
+                    &format!("in-domain hiding commit refused: {:?}", other.map(|r| r.map(|_| ()).map_err(|e| err_kind(&e)))),
+                    format!("# scheme: kzg10\n# case {}\n# supported={} h={}\n", id, supported, h));
+                continue;
+            }
+        };
+        let blind = rand.blinding_polynomial.coeffs.clone();
+        // structural identities on the implementation itself
+        let expect_c = trap.g * p.evaluate(&trap.beta) + trap.gamma * rand.blinding_polynomial.evaluate(&trap.beta);
+        let mut ok = g1(expect_c) == comm.0;
+        ok &= blind.len() == h + 2 && !blind.last().map(|x| x.is_zero()).unwrap_or(true);
+        ok &= blind[..h + 1] == draws[..h + 1];
+        if !ok {
+            ctx.rep.expect_fail(&id, "kzg10/blinding-structure",
+                "commitment != plain + gamma*blind(beta), or blinding polynomial is not h+2 caller-RNG draws",
+                format!("# scheme: kzg10\n# case {}\n# supported={} h={} blind={}\n# draws={}\n", id, supported, h, wire::fes(&blind), wire::fes(&draws)));
+        }
+        // model: same draws -> same blinding polynomial and commitment
+        let pg = trap.pg()[..=supported].to_vec();
+        let pgg = trap.pgg()[..=supported].to_vec();
+        let req = Req::new("kzg.commit")
+            .arg("pg", wire::fes(&pg))
+            .arg("pgg", wire::fes(&pgg))
+            .arg("p", wire::fes(&p.coeffs))
+            .arg("hb", wire::opt_nat(Some(h)))
+            .arg("rng", wire::boolean(true))
+            .arg("draws", wire::fes(&draws));
+        ctx.ses.ask(&id, req, ImplOutcome::Ok(vec![
+            ("c".into(), Expect::G1(comm.0)),
+            ("blind".into(), Expect::Fes(blind.clone())),
+            ("used".into(), Expect::Nat(h + 2)),
+        ]));
+        // same seed -> same commitment; different seed -> different commitment
+        let mut r1 = rng.clone();
+        let (c_same, _) = Kzg::commit(&powers, &p, Some(h), Some(&mut r1)).unwrap();
+        let mut r2 = rng_for(ctx.seed ^ 0xabcdef, "C07/kzg10-other", i as u64);
+        let (c_other, rand_other) = Kzg::commit(&powers, &p, Some(h), Some(&mut r2)).unwrap();
+        if c_same != comm {
+            ctx.rep.expect_fail(&id, "kzg10/same-seed-differs", "same RNG seed gave a different commitment",
+                format!("# scheme: kzg10\n# case {}\n", id));
+        }
+        if c_other == comm {
+            ctx.rep.expect_fail(&id, "kzg10/other-seed-equal", "independent RNG streams gave the same commitment",
+                format!("# scheme: kzg10\n# case {}\n", id));
+        }
+        // proofs differ too, and random_v is the blinding polynomial's value at the point
+        let z = Fr::rand(&mut rng);
+        let pr1 = Kzg::open(&powers, &p, z, &rand).unwrap();
+        let pr2 = Kzg::open(&powers, &p, z, &rand_other).unwrap();
+        if pr1.random_v != Some(rand.blinding_polynomial.evaluate(&z)) || pr1 == pr2 {
+            ctx.rep.expect_fail(&id, "kzg10/proof-blinding", "random_v != blind(z) or proofs of independent streams coincide",
+                format!("# scheme: kzg10\n# case {}\n", id));
+        }
+        // no RNG -> refused
+        let no = guarded(|| Kzg::commit(&powers, &p, Some(h), None));
+        if matches!(no, Ok(Ok(_))) {
+            ctx.rep.expect_fail(&id, "kzg10/missing-rng-answered", "hiding commit without RNG returned a commitment",
+                format!("# scheme: kzg10\n# case {}\n", id));
+        }
+        let req = Req::new("kzg.commit")
+            .arg("pg", wire::fes(&pg)).arg("pgg", wire::fes(&pgg)).arg("p", wire::fes(&p.coeffs))
+            .arg("hb", wire::opt_nat(Some(h))).arg("rng", wire::boolean(false)).arg("draws", wire::fes(&draws));
+        ctx.ses.ask(&id, req, match no { Ok(Ok(_)) => ImplOutcome::Ok(vec![]), Ok(Err(e)) => ImplOutcome::Refuse(err_kind(&e)), Err(a) => ImplOutcome::Refuse(a) });
+        // no hiding bound: deterministic, empty state, RNG untouched
+        let mut crng2 = CountRng::new(rng.clone());
+        let (c_plain, r_plain) = Kzg::commit(&powers, &p, None, Some(&mut crng2)).unwrap();
+        if crng2.bytes != 0 || !r_plain.blinding_polynomial.is_zero() || g1(trap.g * p.evaluate(&trap.beta)) != c_plain.0 {
+            ctx.rep.expect_fail(&id, "kzg10/nonhiding-not-deterministic", "non-hiding commit used the RNG or carries blinding",
+                format!("# scheme: kzg10\n# case {}\n", id));
+        }
+        ctx.rep.count(&format!("kzg10/h-{}", if h == 0 { "0".to_string() } else if h < 4 { "1-3".into() } else { "4+".into() }));
+        ctx.rep.case(&format!("kzg10 hiding s={} h={} poly={} rng-bytes={}", supported, h, kind, crng.bytes),
+            Some(format!("kzg10/{}/{}", supported, h)));
+    }
 }
